@@ -3,7 +3,7 @@ import numpy as np
 from scipy import stats as ss
 
 RUN_ALPHA = 1e-8          # total false-alarm probability per run of a check
-MAX_TESTS = 2000          # fixed upper bound on the number of tests per run
+MAX_TESTS = 20000         # fixed upper bound on the number of tests per run
 ALPHA = RUN_ALPHA / MAX_TESTS
 
 
